@@ -55,3 +55,35 @@ Theorem C14_trigger_batch_in_checkpoint :
   disk _ _ _ s' = Some (live _ _ _ s').
 Proof. exact trigger_batch_in_checkpoint. Qed.
 Print Assumptions C14_trigger_batch_in_checkpoint.
+
+(* ---- round 4: convergence_precision / verbose / saving_folder reassigned after construction (Model/CalibX.v, XSetCfg) ----
+   The reassignment changes the three attributes and nothing else ... *)
+From BlackIt Require Import Model.CalibX Proofs.CalibXP.
+Theorem C14_reassignment_changes_only_the_attributes :
+  forall Param Series LossV model lossf loss_leb rounds0 propose draws agent_actions plan s p v sv s1 e r,
+  xstep Param Series LossV model lossf loss_leb rounds0 propose draws agent_actions plan s (XSetCfg p v sv) = (s1, e, r) ->
+    e = None /\ r = [] /\ disk _ _ _ s1 = disk _ _ _ s /\
+    records _ _ _ (live _ _ _ s1) = records _ _ _ (live _ _ _ s) /\
+    sch _ _ _ (live _ _ _ s1) = sch _ _ _ (live _ _ _ s) /\ tbl _ _ _ (live _ _ _ s1) = tbl _ _ _ (live _ _ _ s) /\
+    rng_pos _ _ _ (live _ _ _ s1) = rng_pos _ _ _ (live _ _ _ s) /\
+    cfg _ _ _ (live _ _ _ s1) = mkCfg (c_E (cfg _ _ _ (live _ _ _ s))) p v sv.
+Proof. intros. eapply xsetcfg_frame; eauto. Qed.
+Print Assumptions C14_reassignment_changes_only_the_attributes.
+
+(* ... and the assigned precision is the one the convergence test reads after EVERY later batch (the batch loop never writes
+   the configuration): C14_stops_at_first_zero, universal in the start state, then speaks about the assigned precision. *)
+Theorem C14_reassigned_precision_in_force :
+  forall Param Series LossV model lossf loss_leb rounds0 propose draws agent_actions plan s p v sv s1 e r n s' o,
+  xstep Param Series LossV model lossf loss_leb rounds0 propose draws agent_actions plan s (XSetCfg p v sv) = (s1, e, r) ->
+  batches Param Series LossV model lossf loss_leb rounds0 propose draws agent_actions plan n s1 = (s', o) ->
+    c_prec (cfg _ _ _ (live _ _ _ s')) = p /\ c_verbose (cfg _ _ _ (live _ _ _ s')) = v /\ c_saving (cfg _ _ _ (live _ _ _ s')) = sv.
+Proof. intros. eapply xsetcfg_in_force_batches; eauto. Qed.
+Print Assumptions C14_reassigned_precision_in_force.
+
+Theorem C14_reassigned_configuration_survives_calibrate :
+  forall Param Series LossV model lossf loss_leb rounds0 propose draws agent_actions plan s p v sv s1 e r n s' e' r',
+  xstep Param Series LossV model lossf loss_leb rounds0 propose draws agent_actions plan s (XSetCfg p v sv) = (s1, e, r) ->
+  calibrate Param Series LossV model lossf loss_leb rounds0 propose draws agent_actions plan n s1 = (s', e', r') ->
+    cfg _ _ _ (live _ _ _ s') = mkCfg (c_E (cfg _ _ _ (live _ _ _ s))) p v sv.
+Proof. intros. eapply xsetcfg_in_force; eauto. Qed.
+Print Assumptions C14_reassigned_configuration_survives_calibrate.
